@@ -84,6 +84,7 @@ def action_strategy(clock, illegal=True, cancel=True, extra=None, prio=None):
     ]
     if cancel:
         acts.append((12, st.tuples(st.just("cancel"), st.integers(0, 999))))
+        acts.append((2, st.tuples(st.just("again"))))
     if illegal:
         acts.append((4, st.tuples(st.just("rel"), delay_strategy(clock, legal=False), node, PRIO)))
         # a time (slightly or clearly) before the clock through schedule_event_abs and schedule_event(SimEvent(..))
